@@ -1,12 +1,15 @@
 import U3.Model.Url
 import U3.Lemmas.Url
+import U3.Lemmas.UrlCase
+import U3.Lemmas.UrlHost
 /-!
 # C14 — URL parsing is total, canonical, and agrees with RFC 3986 on what the host is
 
 Theorems about `U3.Url.parseUrlWith` (the model of `parse_url`, `idna.encode` a parameter) and its
 components.  `NormalForm A s` = "every character of `s` is in the allowed set `A` or part of an
-upper-case valid escape" (`U3.Lemmas.Url`).  Statements that could only be proved in part carry the
-suffix `_partial`; the full statement and what is missing is in the comment above them.  The three
+upper-case valid escape" (`U3.Lemmas.Url`).  A statement that is false of the code as it stands is
+proved under the hypothesis that excludes exactly the defect; the full statement is in the comment
+above it.  The three
 classes of inputs on which the tree still violates the property (known findings, see
 `notes/C14.md`) are pinned by the `…_witness` theorems, proved by evaluating the model; the repaired
 finding `rfc-mismatch:dollar-newline` (`_HOST_PORT_RE` / `_IPV6_ADDRZ_RE` now end in `\Z`) is pinned
@@ -269,10 +272,10 @@ parseUrl (render u) = .ok u`.  It is FALSE on the tree (known finding
 the side condition "the zone id of an IPv6 host does not start with `25`".  The composed proof under
 this side condition is not done.  Proved: the component fixed-point lemmas the round trip rests on — a normal-form component
 is left alone by the encoder (`C14_encode_keeps_normal`), the dot-segment remover is idempotent
-(`C14_dotseg_idempotent`), and, below, host normalisation is idempotent for hosts that are not
-IPv6 literals with a zone (`C14_host_idempotent_partial`) — and, on concrete inputs, the round trip
-itself (`C14_reparse_example`).  Re-parse equality is checked on every generated http/https input by
-the implementation-side oracle.
+(`C14_dotseg_idempotent`), and, below, the host of every successful parse is a fixed point of host
+normalisation unless it has the `zone25` shape of the finding (`C14_parsed_host_fixed`,
+`C14_host_idempotent`) — and, on concrete inputs, the round trip itself (`C14_reparse_example`).
+Re-parse equality is checked on every generated http/https input by the implementation-side oracle.
 -/
 theorem C14_reparse_example :
     ∀ u, parseUrl [72, 84, 84, 80, 58, 47, 47, 85, 64, 91, 58, 58, 49, 93, 58, 48, 56, 48, 47, 97, 47, 46, 46, 47,
@@ -343,54 +346,203 @@ theorem C14_reparse_zone25_witness :
       some (some [91, 58, 58, 49, 37, 97, 93]) := by
   decide
 
-/-
-Full statement: `normalizeHost idna h sc = .ok h' → normalizeHost idna h' sc = .ok h'`.  FALSE for an
-IPv6 literal whose zone id starts with `25` (witness above: "[::1%2525a]" → "[::1%25a]" → "[::1%a]").
-Proved: the two branches without a zone that do not consult IDNA — a scheme outside
-`_NORMALIZABLE_SCHEMES` (host untouched) and the empty / absent host.
--/
-theorem C14_host_idempotent_partial (idna : Str → Option Str) (h : Option Str) (sc : Option Str)
-    (hc : Gen.normalizableSchemes.contains sc = false ∨ h = none ∨ h = some []) :
-    ∀ h', normalizeHost idna h sc = .ok h' → normalizeHost idna h' sc = .ok h' := by
-  intro h' hh
-  rcases hc with hc | rfl | rfl
-  · cases h with
-    | none => simp [normalizeHost] at hh; subst hh; simp [normalizeHost]
-    | some x =>
-      have hc' : ¬ sc ∈ Gen.normalizableSchemes := by simpa using hc
-      by_cases hx : x.isEmpty = true
-      · simp [normalizeHost, hx] at hh; subst hh; simp [normalizeHost, hx]
-      · simp [normalizeHost, hx, hc'] at hh; subst hh; simp [normalizeHost, hx, hc']
-  · simp [normalizeHost] at hh; subst hh; simp [normalizeHost]
-  · simp [normalizeHost] at hh; subst hh; simp [normalizeHost]
+/-! ## the address matchers are blind to ASCII letter case -/
 
--- non-vacuity: ftp is outside the normalizable schemes
-example : Gen.normalizableSchemes.contains (some [102, 116, 112]) = false := by decide
+/-- `_IPV6_PAT`, `_IPV4_PAT`, `_ZONE_ID_PAT`, `_IPV6_ADDRZ_RE`, `_IPV4_RE` (as hand matchers) give the same
+answer on a text and on its ASCII lower-case form — for every string; and the `%HH` scanner commutes
+with lower-casing -/
+theorem C14_matchers_case_blind (s : Str) :
+    isIPv6 (lower s) = isIPv6 s ∧ isIPv4 (lower s) = isIPv4 s ∧ isZone (lower s) = isZone s ∧
+    bracketOk (lower s) = bracketOk s ∧ ipv6AddrzMatch (lower s) = ipv6AddrzMatch s ∧
+    ipv4Match (lower s) = ipv4Match s ∧ tokenize (lower s) = (tokenize s).map Tok.lower :=
+  ⟨isIPv6_lower s, isIPv4_lower s, isZone_lower s, bracketOk_lower s, ipv6AddrzMatch_lower s,
+    ipv4Match_lower s, tokenize_lower s⟩
+
+/-- hence two spellings of one text (equal up to ASCII letter case) are matched alike -/
+theorem C14_matchers_same_for_case_variants (s t : Str) (h : lower s = lower t) :
+    isIPv6 s = isIPv6 t ∧ isIPv4 s = isIPv4 t ∧ isZone s = isZone t ∧
+    ipv6AddrzMatch s = ipv6AddrzMatch t ∧ ipv4Match s = ipv4Match t :=
+  ⟨isIPv6_case h, isIPv4_case h, isZone_case h, ipv6AddrzMatch_case h, ipv4Match_case h⟩
+
+-- non-vacuity: "FE80::A:1.2.3.4" and "fe80::a:1.2.3.4" are case variants, and both are addresses;
+-- "[FE80::1%Eth0]" is matched like "[fe80::1%eth0]"
+example : lower [70, 69, 56, 48, 58, 58, 65, 58, 49, 46, 50, 46, 51, 46, 52] =
+    lower [102, 101, 56, 48, 58, 58, 97, 58, 49, 46, 50, 46, 51, 46, 52] := by decide
+example : isIPv6 [70, 69, 56, 48, 58, 58, 65, 58, 49, 46, 50, 46, 51, 46, 52] = true := by decide
+example : ipv6AddrzMatch [91, 70, 69, 56, 48, 58, 58, 49, 37, 69, 116, 104, 48, 93] = true ∧
+    ipv6AddrzMatch (lower [91, 70, 69, 56, 48, 58, 58, 49, 37, 69, 116, 104, 48, 93]) = true := by decide
+
+/-! ## `_normalize_host` on a bracketed literal: exactly the address part is lower-cased -/
+
+/-- For every bracketed literal `_IPV6_ADDRZ_RE` matches (http / https / no scheme): without a zone id
+the result is the text in lower case; with one — `[` a `%` z `]`, `a` free of `%` — it is `[`, the
+address part `a` in lower case, `%`, and the zone id percent-encoded over the unreserved set **with its
+letter case kept** (`zoneIdOf z` is `z` without the RFC 6874 delimiter `25`), `]`. -/
+theorem C14_normalize_host_literal (idna : Str → Option Str) (sc : Option Str)
+    (hs : sc ∈ [some http, some https, none]) :
+    (∀ h, ipv6AddrzMatch h = true → 37 ∉ h → normalizeHost idna (some h) sc = .ok (some (lower h))) ∧
+    (∀ a z, 37 ∉ a → ipv6AddrzMatch (91 :: (a ++ 37 :: (z ++ [93]))) = true →
+      normalizeHost idna (some (91 :: (a ++ 37 :: (z ++ [93])))) sc =
+        .ok (some (91 :: (lower a ++ 37 :: (encodeInvalidChars Gen.unreservedChars (zoneIdOf z) ++ [93]))))) :=
+  ⟨fun _ hm h37 => normalizeHost_literal_nozone idna (normalizable_of_mem hs) hm h37,
+   fun a z ha hm => normalizeHost_literal_zone' idna (normalizable_of_mem hs) a z ha hm⟩
+
+-- non-vacuity: "[FE80::1%25Eth0]" = "[" "FE80::1" "%" "25Eth0" "]" is matched, its address part has no "%",
+-- and the kept zone id is "Eth0"
+example : ipv6AddrzMatch (91 :: ([70, 69, 56, 48, 58, 58, 49] ++ 37 :: ([50, 53, 69, 116, 104, 48] ++ [93]))) = true ∧
+    37 ∉ [70, 69, 56, 48, 58, 58, 49] ∧ zoneIdOf [50, 53, 69, 116, 104, 48] = [69, 116, 104, 48] := by decide
+
+/-! ## idempotence of `_normalize_host` -/
 
 /-
-Host lower-case clause of the normal form.  Full statement: on success with a normalizable scheme the
-host is lower-case ASCII (an RFC 6874 zone id keeps its case).  Proved for the reg-name branch (every
-label lower-cased, or the IDNA answer, assumed lower-case — the contract of `idna.encode`) and the
-zone-less IPv6 branch.  Missing: the dotted-quad branch (`_IPV4_RE` matches, host returned untouched:
-digits and dots only, not proved) and the address part of a literal with a zone.
+Full statement: `normalizeHost idna h sc = .ok h' → normalizeHost idna h' sc = .ok h'`.  FALSE in exactly
+two situations:
+
+* the result is a bracketed literal whose zone id starts with `25` and goes on (`zone25 h'`; known
+  finding `reparse-mismatch:zone-25-prefix` / `host:not-idempotent:zone-25-prefix`, witness
+  `C14_reparse_zone25_witness` above: "[::1%2525a]" → "[::1%25a]" → "[::1%a]").  The exclusion is exact:
+  `C14_host_idempotent_zone25_exact` shows that every such result of a literal is *not* a fixed point;
+* the host has a `[`, is not a bracketed literal, and a non-ASCII label sits inside the brackets, so
+  that the IDNA answer completes a literal ("[::1%a%aa.é.b]" → "[::1%a%aa.xn--9ca.b]" →
+  "[::1%a%AA.xn--9ca.b]", witness `C14_host_idn_in_brackets_witness`).  `parse_url` never hands such a
+  text to `_normalize_host` (`_HOST_PORT_RE` captures a reg-name without `[` or a matched literal —
+  `parse_host_origin`), so this is outside the property; the hypothesis `hsrc` excludes it.
+
+Proved: idempotence for every other host, every scheme, every IDNA oracle that keeps the contract
+`IdnaLdh` (answers consist of lower-case letters, digits, `-`, `.`).
 -/
-theorem C14_host_lower_partial (idna : Str → Option Str)
-    (hc : ∀ l r, idna l = some r → lower r = r)
+theorem C14_host_idempotent (idna : Str → Option Str) (hc : IdnaLdh idna) (h : Option Str) (sc : Option Str)
+    (h' : Option Str) (hh : normalizeHost idna h sc = .ok h')
+    (hsrc : ∀ x, h = some x → x.all (· < 128) = true ∨ 91 ∉ x ∨ ipv6AddrzMatch x = true)
+    (h25 : ∀ y, h' = some y → zone25 y = false) :
+    normalizeHost idna h' sc = .ok h' :=
+  normalizeHost_idempotent hc h sc h' hh hsrc h25
+
+-- non-vacuity: the contract holds for the IDNA-free oracle; "[FE80::1%25Eth0]" is a bracketed literal
+-- whose result "[fe80::1%Eth0]" has not the shape of the finding
+example : IdnaLdh (fun _ => none) := by intro l r h; simp at h
+example : ipv6AddrzMatch [91, 70, 69, 56, 48, 58, 58, 49, 37, 50, 53, 69, 116, 104, 48, 93] = true ∧
+    normalizeHost (fun _ => none) (some [91, 70, 69, 56, 48, 58, 58, 49, 37, 50, 53, 69, 116, 104, 48, 93]) (some http) =
+      .ok (some [91, 102, 101, 56, 48, 58, 58, 49, 37, 69, 116, 104, 48, 93]) ∧
+    zone25 [91, 102, 101, 56, 48, 58, 58, 49, 37, 69, 116, 104, 48, 93] = false := by decide
+
+/-- the `zone25` exclusion is exact: whenever `_normalize_host` (http / https / no scheme) maps a
+bracketed literal to a text of the `zone25` shape, that text is **not** a fixed point -/
+theorem C14_host_idempotent_zone25_exact (idna : Str → Option Str) (sc : Option Str)
+    (hs : sc ∈ [some http, some https, none]) (h h' : Str) (hm : ipv6AddrzMatch h = true)
+    (hh : normalizeHost idna (some h) sc = .ok (some h')) (h25 : zone25 h' = true) :
+    normalizeHost idna (some h') sc ≠ .ok (some h') := by
+  have hs' := normalizable_of_mem hs
+  obtain ⟨x, hx, hsh⟩ := normalizeHost_of_literal idna hs' hm
+  rw [hx] at hh
+  simp only [Except.ok.injEq, Option.some.injEq] at hh
+  subst hh
+  rcases hsh with ⟨-, -, hl⟩ | ⟨-, hz⟩
+  · -- a literal without `%` has an empty zone id
+    exfalso
+    have : zoneOf x = [] := by simp [zoneOf, dropWhile_ne_nil_of_not_mem hl.2.1]
+    simp [zone25, this, isPrefix] at h25
+  · exact zoned25_not_fixed idna hs' hz h25
+
+-- non-vacuity: "[::1%2525a]" → "[::1%25a]", which has the shape
+example : normalizeHost (fun _ => none) (some [91, 58, 58, 49, 37, 50, 53, 50, 53, 97, 93]) (some http) =
+    .ok (some [91, 58, 58, 49, 37, 50, 53, 97, 93]) ∧ zone25 [91, 58, 58, 49, 37, 50, 53, 97, 93] = true := by
+  decide
+
+/-- the other way to lose idempotence, outside what `parse_url` can reach: "[::1%a%aa.é.b]" is no
+bracketed literal (the zone id may not contain "é"), so its labels are encoded one by one; with
+`idna.encode("é") = "xn--9ca"` the result "[::1%a%aa.xn--9ca.b]" *is* a literal, and normalising it
+again upper-cases the escape: "[::1%a%AA.xn--9ca.b]" -/
+theorem C14_host_idn_in_brackets_witness :
+    let idna : Str → Option Str := fun l => if l = [233] then some [120, 110, 45, 45, 57, 99, 97] else none
+    IdnaLdh idna ∧
+    ipv6AddrzMatch [91, 58, 58, 49, 37, 97, 37, 97, 97, 46, 233, 46, 98, 93] = false ∧
+    normalizeHost idna (some [91, 58, 58, 49, 37, 97, 37, 97, 97, 46, 233, 46, 98, 93]) (some http) =
+      .ok (some [91, 58, 58, 49, 37, 97, 37, 97, 97, 46, 120, 110, 45, 45, 57, 99, 97, 46, 98, 93]) ∧
+    normalizeHost idna (some [91, 58, 58, 49, 37, 97, 37, 97, 97, 46, 120, 110, 45, 45, 57, 99, 97, 46, 98, 93])
+      (some http) =
+      .ok (some [91, 58, 58, 49, 37, 97, 37, 65, 65, 46, 120, 110, 45, 45, 57, 99, 97, 46, 98, 93]) := by
+  refine ⟨?_, by decide, by decide, by decide⟩
+  intro l r h
+  simp only at h
+  split at h
+  · simp only [Option.some.injEq] at h
+    subst h
+    decide
+  · simp at h
+
+/-! ## the host of a successful parse: lower case, shape, stability -/
+
+/--
+**Host lower-case clause of the normal form** (full).  On success with scheme http / https / none the
+host is lower-case ASCII-wise up to its first `%`, and lower-case throughout unless it is a bracketed
+IPv6 literal with a zone id: an RFC 6874 zone id keeps its letter case on purpose (and its escapes are
+upper-cased), everything else — reg-name incl. its percent-escapes, dotted quad, address part of a
+literal — is lower-cased.  Contract on the uninterpreted `idna.encode`: answers are lower-case. -/
+theorem C14_host_lower (idna : Str → Option Str) (hc : ∀ l r, idna l = some r → lower r = r)
+    (s : Str) (u : Url) (h : parseUrlWith idna s = .ok u) (hs : u.scheme ∈ [some http, some https, none])
+    (h' : Str) (hh : u.host = some h') :
+    lower (h'.takeWhile (· != 37)) = h'.takeWhile (· != 37) ∧
+    (¬ (ipv6AddrzMatch h' = true ∧ 37 ∈ h') → lower h' = h') :=
+  parsed_host_lower hc h (normalizable_of_mem hs) hh
+
+/-- the same for `_normalize_host` itself, every host text: lower-case up to the first `%`; lower-case
+throughout unless the *input* is a bracketed literal with a zone id, in which case the result is a
+zoned literal in parsed form (`ZonedHost`: lower-case address part, normal-form zone id) -/
+theorem C14_normalize_host_lower (idna : Str → Option Str) (hc : ∀ l r, idna l = some r → lower r = r)
     (h : Str) (sc : Option Str) (hs : sc ∈ [some http, some https, none])
-    (h4 : ipv4Match h = false)
-    (hz : ipv6AddrzMatch h = true → h.dropWhile (· != 37) = [])
-    (h' : Str) (hh : normalizeHost idna (some h) sc = .ok (some h')) : lower h' = h' := by
-  apply normalizeHost_lower hc h sc _ h4 hz h' hh
-  simp only [List.mem_cons, List.not_mem_nil, or_false] at hs
-  rcases hs with rfl | rfl | rfl <;> decide
+    (h' : Str) (hh : normalizeHost idna (some h) sc = .ok (some h')) :
+    lower (h'.takeWhile (· != 37)) = h'.takeWhile (· != 37) ∧
+    (¬ (ipv6AddrzMatch h = true ∧ 37 ∈ h) → lower h' = h') ∧
+    (ipv6AddrzMatch h = true → 37 ∈ h → ZonedHost h') :=
+  normalizeHost_lower_full hc (normalizable_of_mem hs) hh
 
--- non-vacuity: "ExAmple.COM" (neither IPv4 nor IPv6) is lower-cased; "[FE80::1]" too
-example : normalizeHost (fun _ => none) (some [69, 120, 65, 109, 112, 108, 101, 46, 67, 79, 77]) (some http) =
-    .ok (some [101, 120, 97, 109, 112, 108, 101, 46, 99, 111, 109]) := by decide
-example : ipv4Match [69, 120, 65, 109, 112, 108, 101, 46, 67, 79, 77] = false ∧
-    ipv6AddrzMatch [69, 120, 65, 109, 112, 108, 101, 46, 67, 79, 77] = false := by decide
-example : normalizeHost (fun _ => none) (some [91, 70, 69, 56, 48, 58, 58, 49, 93]) none =
-    .ok (some [91, 102, 101, 56, 48, 58, 58, 49, 93]) := by decide
+-- non-vacuity: "HTTP://ExAmple.COM%2F/" has host "example.com%2f" (escape lower-cased with the rest);
+-- "http://[FE80::1%25Eth0]" has host "[fe80::1%Eth0]": a literal with zone id, lower-case up to "%";
+-- "http://1.2.3.4" keeps its dotted quad
+example : (parseUrl [72, 84, 84, 80, 58, 47, 47, 69, 120, 65, 109, 112, 108, 101, 46, 67, 79, 77, 37, 50, 70, 47]).toOption.map
+    (fun u => (u.scheme, u.host)) =
+    some (some http, some [101, 120, 97, 109, 112, 108, 101, 46, 99, 111, 109, 37, 50, 102]) := by decide
+example : (parseUrl [104, 116, 116, 112, 58, 47, 47, 91, 70, 69, 56, 48, 58, 58, 49, 37, 50, 53, 69, 116, 104, 48, 93]).toOption.map
+    (·.host) = some (some [91, 102, 101, 56, 48, 58, 58, 49, 37, 69, 116, 104, 48, 93]) := by decide
+example : ipv6AddrzMatch [91, 102, 101, 56, 48, 58, 58, 49, 37, 69, 116, 104, 48, 93] = true ∧
+    37 ∈ [91, 102, 101, 56, 48, 58, 58, 49, 37, 69, 116, 104, 48, 93] := by decide
+example : (parseUrl [104, 116, 116, 112, 58, 47, 47, 49, 46, 50, 46, 51, 46, 52]).toOption.map (·.host) =
+    some (some [49, 46, 50, 46, 51, 46, 52]) := by decide
+example : ∀ l r, (fun _ => none : Str → Option Str) l = some r → lower r = r := by simp
+
+/--
+**The host of every successful http / https / scheme-less parse has one of three stable shapes**
+(`U3.Lemmas.UrlHost`): `NameHost` — ASCII, lower-case, not a bracketed literal (reg-names incl.
+A-labels and percent-escapes, dotted quads, the empty host); `LiteralHost` — a lower-case bracketed
+IPv6 literal without `%`; `ZonedHost` — a bracketed IPv6 literal with lower-case address part, `%`, and
+a zone id in normal form over the unreserved set.  These are the shapes `C15_host_stable_partial`
+assumes.  Contract `IdnaLdh`: `idna.encode` answers with lower-case letters, digits, `-`, `.` only. -/
+theorem C14_parsed_host_shape (idna : Str → Option Str) (hc : IdnaLdh idna) (s : Str) (u : Url)
+    (h : parseUrlWith idna s = .ok u) (hs : u.scheme ∈ [some http, some https, none])
+    (h' : Str) (hh : u.host = some h') : NameHost h' ∨ LiteralHost h' ∨ ZonedHost h' :=
+  parsed_host_shape hc h (normalizable_of_mem hs) hh
+
+/-- hence normalising the parsed host once more (what a connection pool does) gives it back — unless
+it has the `zone25` shape of the known finding (`C14_reparse_zone25_witness`,
+`C14_host_idempotent_zone25_exact`) -/
+theorem C14_parsed_host_fixed (idna : Str → Option Str) (hc : IdnaLdh idna) (s : Str) (u : Url)
+    (h : parseUrlWith idna s = .ok u) (hs : u.scheme ∈ [some http, some https, none])
+    (h' : Str) (hh : u.host = some h') (h25 : zone25 h' = false) :
+    normalizeHost idna (some h') u.scheme = .ok (some h') :=
+  parsed_host_fixed hc h (normalizable_of_mem hs) hh h25
+
+-- non-vacuity: the three shapes occur ("http://Bücher.example" needs an IDNA answer, so the A-label is
+-- written out here), and only the zoned literal of the finding has the `zone25` shape
+example : NameHost [120, 110, 45, 45, 98, 99, 104, 101, 114, 45, 107, 118, 97, 46, 101, 120, 97, 109, 112, 108, 101] :=
+  ⟨by decide, by decide, by decide⟩
+example : NameHost [49, 46, 50, 46, 51, 46, 52] := ⟨by decide, by decide, by decide⟩
+example : LiteralHost [91, 102, 101, 56, 48, 58, 58, 49, 93] := ⟨by decide, by decide, by decide⟩
+example : ZonedHost [91, 102, 101, 56, 48, 58, 58, 49, 37, 69, 116, 104, 48, 93] :=
+  ⟨by decide, by decide, [69, 116, 104, 48], by decide,
+    ⟨[.chr 69, .chr 116, .chr 104, .chr 48], by decide, by decide⟩⟩
+example : zone25 [91, 102, 101, 56, 48, 58, 58, 49, 37, 69, 116, 104, 48, 93] = false ∧
+    zone25 [91, 58, 58, 49, 37, 50, 53, 97, 93] = true ∧ zone25 [49, 46, 50, 46, 51, 46, 52] = false := by decide
 
 /-! ## semantic facts about the generated tables the model uses -/
 
